@@ -143,8 +143,12 @@ func runC14(e *core.Env) {
 		if blobReqs != 0 {
 			e.Violation("retag", "retag-touched-blobs", "retag within one repository issued %d blob requests", blobReqs)
 		}
-		if manifestPuts != 1 {
-			e.Violation("retag", "retag-manifest-puts", "retag within one repository wrote %d manifests, want exactly 1", manifestPuts)
+		want := 1
+		if c.preTags[c.tgtTag] == c.gr.Root.Digest {
+			want = 0 // the target tag already named this very manifest (a generated "stale" image can be identical to the source): nothing to write
+		}
+		if manifestPuts != want {
+			e.Violation("retag", "retag-manifest-puts", "retag within one repository wrote %d manifests, want exactly %d", manifestPuts, want)
 		}
 		e.Probe("retag")
 	}
